@@ -11,6 +11,7 @@ import json
 import os
 import random
 import re
+import shutil
 import subprocess
 import time
 import zlib
@@ -170,6 +171,84 @@ def ctor_probes(workdir, quick):
         scn = {"g": "canon", "op": "pod_probe" if name == "pod_read" else "ctor_probe", "bits": b, "limbs": l, "ctor": name}
         events.append((dict(scn, outcome=outcome, detail=detail, st="ok", pan=[]), set(scn.keys())))
     return events
+
+
+ALT_WIDTHS = [(0, 0), (1, 1), (7, 1), (63, 1), (64, 1), (65, 2), (100, 2), (127, 2), (128, 2), (129, 3), (255, 4), (256, 4), (257, 5), (521, 9)]
+
+
+def alt_config_probes(workdir, quick):
+    """The inherent methods random / random_with / randomize / randomize_with of the rand-0.8 integration exist only when the
+    feature `rand-09` is OFF (cfg(not(feature = "rand-09"))) - a configuration the main harness, which enables every feature,
+    never compiles.  A second, small crate is built from the working tree with the feature `rand` alone; it prints the raw
+    limbs of what these methods yield, which become `gen08` events."""
+    d = os.path.join(workdir, "alt_rand08")
+    os.makedirs(os.path.join(d, "src"), exist_ok=True)
+    with open(os.path.join(d, "Cargo.toml"), "w") as fh:
+        fh.write('[package]\nname = "altrand08"\nversion = "0.0.0"\nedition = "2021"\n\n[workspace]\n\n[dependencies]\n'
+                 f'ruint = {{ path = "{vlib.REPO}", features = ["rand"] }}\nrand = "0.8"\n\n[profile.dev]\nopt-level = 1\ndebug = false\n')
+    os.makedirs(os.path.join(d, ".cargo"), exist_ok=True)
+    with open(os.path.join(d, ".cargo", "config.toml"), "w") as fh:
+        fh.write('[net]\noffline = true\n[build]\ntarget-dir = "target"\n')
+    shutil.copy(os.path.join(vlib.REPO, "Cargo.lock"), os.path.join(d, "Cargo.lock"))
+    k = 6 if quick else 40
+    calls = "\n".join(f"    run::<{b}, {l}>({k});" for b, l in ALT_WIDTHS)
+    with open(os.path.join(d, "src", "main.rs"), "w") as fh:
+        fh.write("""use rand::{Rng, SeedableRng};
+use ruint::Uint;
+fn show<const B: usize, const L: usize>(seed: u64, field: &str, f: impl FnOnce() -> Vec<Uint<B, L>> + std::panic::UnwindSafe) {
+    match std::panic::catch_unwind(f) {
+        Ok(v) => println!("{} {} {} {}", B, seed, field, v.iter().map(|x| x.as_limbs().iter().map(|l| l.to_string()).collect::<Vec<_>>().join(",")).collect::<Vec<_>>().join(";")),
+        Err(_) => println!("{} {} {} PANIC", B, seed, field),
+    }
+}
+fn run<const B: usize, const L: usize>(k: usize) {
+    for seed in [1u64, 7919 + B as u64, 0xffff_ffff_ffff_fff1] {
+        show::<B, L>(seed, "r8o_with", move || { let mut r = rand::rngs::StdRng::seed_from_u64(seed); (0..k).map(|_| Uint::<B, L>::random_with(&mut r)).collect() });
+        show::<B, L>(seed, "r8o_rize_max", move || { let mut r = rand::rngs::StdRng::seed_from_u64(seed); (0..k).map(|_| { let mut x = Uint::<B, L>::MAX; x.randomize_with(&mut r); x }).collect() });
+        show::<B, L>(seed, "r8o_rize_zero", move || { let mut r = rand::rngs::StdRng::seed_from_u64(seed); (0..k).map(|_| { let mut x = Uint::<B, L>::ZERO; x.randomize_with(&mut r); x }).collect() });
+        show::<B, L>(seed, "r8o_gen", move || { let mut r = rand::rngs::StdRng::seed_from_u64(seed); (0..k).map(|_| r.gen::<Uint<B, L>>()).collect() });
+        show::<B, L>(seed, "r8o_thread", move || (0..k).map(|_| Uint::<B, L>::random()).collect());
+        show::<B, L>(seed, "r8o_rize_thread", move || (0..k).map(|_| { let mut x = Uint::<B, L>::MAX; x.randomize(); x }).collect());
+    }
+}
+fn main() {
+    std::panic::set_hook(Box::new(|_| {}));
+""" + calls + "\n}\n")
+    env = dict(os.environ, CARGO_NET_OFFLINE="true", RUST_BACKTRACE="0")
+    try:
+        c = subprocess.run(["cargo", "build", "--offline"], cwd=d, env=env, capture_output=True, text=True, timeout=1500)
+    except subprocess.TimeoutExpired:
+        raise ToolError("the rand-0.8-only probe crate did not build within 25 min")
+    if c.returncode != 0:
+        raise ToolError("the rand-0.8-only probe crate failed to build: " + c.stderr[-600:])
+    try:
+        x = subprocess.run([os.path.join(d, "target", "debug", "altrand08")], capture_output=True, text=True, timeout=300)
+    except subprocess.TimeoutExpired:
+        x = None
+    evs = {}
+    for line in (x.stdout.split("\n") if x else []):
+        parts = line.split(" ")
+        if len(parts) != 4:
+            continue
+        b, sd, field, val = int(parts[0]), int(parts[1]), parts[2], parts[3]
+        ev = evs.setdefault((b, sd), {"g": "canon", "op": "gen08", "bits": b, "seed": [sd & 0xff, sd >> 8 & 0xff], "k": k, "st": "ok", "pan": []})
+        if val == "PANIC":
+            ev["pan"].append(field)
+        else:
+            vals = []
+            for item in (val.split(";") if val else []):
+                limbs = [int(t) for t in item.split(",")] if item else []
+                by = [(l >> (8 * i)) & 0xff for l in limbs for i in range(8)]
+                while by and by[-1] == 0:
+                    by.pop()
+                vals.append(by)
+            ev[field] = vals
+    # a run that hangs or dies leaves events without their fields: Has(e, f) fails for them, which is the observation
+    for b, _ in ALT_WIDTHS:
+        for sd in (1, 7919 + b, 0xfffffffffffffff1):
+            evs.setdefault((b, sd), {"g": "canon", "op": "gen08", "bits": b, "seed": [sd & 0xff, sd >> 8 & 0xff], "k": k, "st": "ok", "pan": []})
+    keys = {"g", "op", "bits", "seed", "k"}
+    return [(ev, keys) for _, ev in sorted(evs.items())]
 
 
 def event_scenarios(tier, rng):
@@ -385,11 +464,14 @@ def main(tier, seed, replay, t0):
                                               "immediates; spec/MachineTrace.tla checks every logged step against UintMachine!Apply"}
     # ---- (P) ill-formed types
     probes = ctor_probes(workdir, quick)
+    alt = alt_config_probes(workdir, quick)
+    extra["alt_config_probes"] = {"configuration": "ruint built with the feature `rand` alone (the rand-0.8 inherent methods are cfg'd out "
+                                                   "whenever rand-09 is enabled)", "events": len(alt), "widths": [b for b, _ in ALT_WIDTHS]}
     extra["ctor_probes"] = {"probes": len(probes),
                             "outcomes": {o: sum(1 for e, _ in probes if e["outcome"] == o) for o in ("compile_error", "panic", "obtained")}}
     # ---- (B3) events
     group = event_scenarios(tier, rng)
-    runner.run_pipeline("C04", group, tier, seed, res, pre_events=probes, neg_skip=("hasheq", "detail", "r9_thread", "qc"), workdir=workdir)
+    runner.run_pipeline("C04", group, tier, seed, res, pre_events=probes + alt, neg_skip=("hasheq", "detail", "r9_thread", "qc", "r8o_thread", "r8o_rize_thread"), workdir=workdir)
     if res.samples is not None and trans:
         res.samples = ([trans[len(trans) // 2]] + ([{"history_bits": hists[0]["bits"], "first_steps": hists[0]["steps"][:3]}] if hists else [])
                        + res.samples)[:6]
